@@ -325,6 +325,55 @@ def Chunk.fixedLen (c : Chunk) (n : Int) : Text :=
   else if diff < 0 then construct [.chunk ⟨c.col, pySlice c.text none (some n)⟩]
   else construct [.chunk c]
 
+/-! ### the chunk-list helpers (`CHText.make`, `_merge_chunks`, `calc_chunks_len`,
+`resize_chunks_list`): "for internal use" class methods that `ak/ppobj.py` builds table cells with -/
+
+/-- `calc_chunks_len` -/
+def calcChunksLen : List Chunk → Nat
+  | [] => 0
+  | c :: cs => c.text.length + calcChunksLen cs
+
+/-- the loop of `_merge_chunks`: `cur` is `cur_chunk`; a chunk of the same colour is added to it
+(`add_chunks_same_type` keeps the prefix and suffix of `cur`), another colour closes it -/
+def mergeGo (cur : Chunk) : List Chunk → List Chunk
+  | [] => [cur]
+  | c :: cs => if cur.col = c.col then mergeGo ⟨cur.col, cur.text ++ c.text⟩ cs else cur :: mergeGo c cs
+
+/-- `any(c.has_same_type(next_c) for c, next_c in zip(l[:-1], l[1:]))` -/
+def needMerge : List Chunk → Bool
+  | c :: d :: rest => c.col = d.col || needMerge (d :: rest)
+  | _ => false
+
+/-- `_merge_chunks`: the argument itself when no neighbours have the same colour -/
+def mergeChunks (cs : List Chunk) : List Chunk :=
+  if needMerge cs then
+    match cs with
+    | [] => []          -- `chunks_list[0]` of an empty list: unreachable, `needMerge [] = false`
+    | c :: rest => mergeGo c rest
+  else cs
+
+/-- `CHText.make`: merges neighbours of one colour, keeps empty chunks -/
+def Text.make (cs : List Chunk) : Text :=
+  let m := mergeChunks cs
+  ⟨calcChunksLen m, m⟩
+
+/-- the `for item in chunks` loop of `resize_chunks_list` (`none` = the early `return result`) -/
+def resizeLoop : List Chunk → Nat → List Chunk
+  | [], rem => [⟨0, spaces rem⟩]
+  | item :: rest, rem =>
+    if rem = 0 then []
+    else if item.text.length ≤ rem then item :: resizeLoop rest (rem - item.text.length)
+    else ⟨item.col, item.text.take rem⟩ :: resizeLoop rest 0
+
+/-- `resize_chunks_list(chunks, new_len)` for `new_len ≥ 0` (a negative one fails the `assert`) -/
+def resizeChunks (cs : List Chunk) (n : Int) : Except Err (List Chunk) :=
+  if n < 0 then .error .assertion
+  else
+    let len := calcChunksLen cs
+    if (len : Int) = n then .ok cs
+    else if (len : Int) < n then .ok (cs ++ [⟨0, spaces (n - len).toNat⟩])
+    else .ok (resizeLoop cs n.toNat)
+
 /-! ### iteration -/
 
 /-- the sequence-iteration protocol (`iter(obj)` of a class with `__getitem__` and no `__iter__`):
